@@ -90,10 +90,16 @@ structure St where
   auto : Bool
   /-- verifPoints compiled in: `m.*` labels are part of the trace -/
   hooks : Bool
+  /-- the live secure channel has reported an error (connection lost …) that is
+      waiting in `c.sechanErr` -/
+  faulted : Bool
+  /-- `c.sechanErr` holds an error of a secure channel that no longer exists
+      (all channels of a client share that one-slot channel) -/
+  stale : Bool
   deriving Repr, DecidableEq
 
 def init (auto hooks : Bool) : St :=
-  ⟨.fresh, .notStarted, .no, false, false, .closed, auto, hooks⟩
+  ⟨.fresh, .notStarted, .no, false, false, .closed, auto, hooks, false, false⟩
 
 inductive Ev where
   | uConnect | uConnectOk | uConnectErr | uClose | uCloseEnd
@@ -110,7 +116,8 @@ def monHidden (s : St) : List St :=
   | .disc => [ErrClass.eof, .refused, .badChannel, .badSession, .badSubscription, .other].map
                fun c => { s with mpc := .err c }
   | .top a => if s.cancelled then [] else [{ s with mpc := .act a }]
-  | .done => [{ s with mpc := .wait }]
+  -- … `for len(c.sechanErr) > 0 { <-c.sechanErr }`: errors from the reconnection are cleared
+  | .done => [{ s with mpc := .wait, stale := false, faulted := false }]
   | _ => []
 
 /-- hidden steps -/
@@ -118,9 +125,13 @@ def tau (s : St) : List St :=
   (if s.hooks then [] else monHidden s) ++
   -- Close: c.CloseSession(ctx); `c.mcancel()` — before `c.setState(ctx, Closed)`
   (if s.cl == .begun && !s.cancelled then [{ s with cancelled := true }] else []) ++
+  -- the environment: the live connection is lost / the channel reports an error (dispatcher → c.sechanErr)
+  (if s.mpc == .wait && !s.faulted then [{ s with faulted := true }] else []) ++
   (match s.upc with
-   -- c.Dial(ctx) failed / succeeded
-   | .c2 => [{ s with upc := .cDialFailed }, { s with upc := .cSess }]
+   -- c.Dial(ctx) failed before a secure channel existed / failed at OpenSecureChannel (the dead channel's
+   -- dispatcher leaves its error in c.sechanErr) / succeeded (Dial drains c.sechanErr before it creates the channel)
+   | .c2 => [{ s with upc := .cDialFailed }, { s with upc := .cDialFailed, stale := true },
+             { s with upc := .cSess, stale := false, faulted := false }]
    -- CreateSession / ActivateSession failed (→ c.Close(ctx)) / succeeded
    | .cSess => [{ s with upc := .cClose1 }, { s with upc := .c3, sess := true }]
    -- c.UpdateNamespaces(ctx) fails (the monitor is already running): c.Close(ctx) — the same steps as a user Close
@@ -129,14 +140,18 @@ def tau (s : St) : List St :=
   (match s.mpc with
    -- case <-ctx.Done(): return          (top-level select)
    -- … or `case err := <-c.sechanErr` with the context already cancelled: report(Disconnected) is suppressed
-   | .wait => if s.cancelled then [{ s with mpc := .exit }, { s with mpc := .disc }] else []
+   | .wait => if s.cancelled then [{ s with mpc := .exit }] ++
+                (if s.faulted || s.stale then [{ s with mpc := .disc, faulted := false, stale := false }] else [])
+              else []
    -- if !c.cfg.sechan.AutoReconnect { return }    /  switch on the error class; c.pauseSubscriptions(ctx)
    | .err c => if s.auto then [{ s with mpc := .top (classify c) }] else [{ s with mpc := .exit }]
    -- case <-ctx.Done(): return          (action loop)
    | .top _ => if s.cancelled then [{ s with mpc := .exit }] else []
    -- report := func(s) { if ctx.Err() != nil { return }; c.setState(ctx, s) }: after cancellation the
    -- actions run on without reporting
-   | .act .createSecureChannel => if s.cancelled then [{ s with mpc := .dialLoop }] else []
+   -- (c.conn.Close(); sc.Close(): the old channel's dispatcher may leave an error behind)
+   | .act .createSecureChannel =>
+     if s.cancelled then [{ s with mpc := .dialLoop }, { s with mpc := .dialLoop, stale := true }] else []
    | .act .restoreSession => if s.cancelled then [{ s with mpc := .restore1 }] else []
    | .act .recreateSession => if s.cancelled then [{ s with mpc := .recreate1 }] else []
    | .act .restoreSubscriptions => if s.cancelled then [{ s with mpc := .done }] else []
@@ -147,7 +162,9 @@ def tau (s : St) : List St :=
    -- Dial with a cancelled context fails without a connect attempt; `case <-ctx.Done(): return`
    | .dialLoop => if s.cancelled then [{ s with mpc := .exit }] else []
    -- Dial failed → wait ReconnectInterval; Dial succeeded → action = restoreSession
-   | .dialed => [{ s with mpc := .dialWait }, { s with mpc := .top .restoreSession }]
+   -- (as in Connect: a Dial that fails at OpenSecureChannel leaves a stale error; a successful Dial drains)
+   | .dialed => [{ s with mpc := .dialWait }, { s with mpc := .dialWait, stale := true },
+                 { s with mpc := .top .restoreSession, stale := false, faulted := false }]
    -- case <-ctx.Done(): return / case <-time.After(ReconnectInterval): continue
    | .dialWait => if s.cancelled then [{ s with mpc := .exit }] else [{ s with mpc := .dialLoop }]
    | .restore1 =>
@@ -175,7 +192,7 @@ def obs (s : St) (e : Ev) : List St :=
     (match s.mpc, e with
      | .disc, .mError c => [{ s with mpc := .err c }]
      | .top a, .mAction b => if !s.cancelled && a == b then [{ s with mpc := .act a }] else []
-     | .done, .mDone => [{ s with mpc := .wait }]
+     | .done, .mDone => [{ s with mpc := .wait, stale := false, faulted := false }]
      | _, _ => [])
    else []) ++
   (match e with
@@ -206,9 +223,13 @@ def obs (s : St) (e : Ev) : List St :=
      -- the monitor's reports go through `report`: nothing but the deferred Closed once ctx is cancelled
      (match s.mpc, x with
       -- case err := <-c.sechanErr: … report(Disconnected)
-      | .wait, .disconnected => if s.cancelled then [] else [{ s with mpc := .disc, last := x }]
+      | .wait, .disconnected =>
+        if s.cancelled || !(s.faulted || s.stale) then []
+        else [{ s with mpc := .disc, last := x, faulted := false, stale := false }]
       -- createSecureChannel: report(Reconnecting)
-      | .act .createSecureChannel, .reconnecting => if s.cancelled then [] else [{ s with mpc := .dialLoop, last := x }]
+      | .act .createSecureChannel, .reconnecting =>
+        if s.cancelled then []
+        else [{ s with mpc := .dialLoop, last := x }, { s with mpc := .dialLoop, last := x, stale := true }]
       -- restoreSession: report(Reconnecting)
       | .act .restoreSession, .reconnecting => if s.cancelled then [] else [{ s with mpc := .restore1, last := x }]
       -- recreateSession: report(Reconnecting)
@@ -297,7 +318,10 @@ def Good (s : St) : Bool :=
   (s.mpc != .dead || s.last == .closed) &&
   (!s.clRep || s.last == .closed) &&
   -- cancellation belongs to Close and precedes its report
-  (!s.cancelled || s.cl != .no) && (!s.clRep || s.cancelled)
+  (!s.cancelled || s.cl != .no) && (!s.clRep || s.cancelled) &&
+  -- a monitor that waits for errors has no stale error in front of it (Dial and the end of a reconnect drain)
+  (!(s.mpc == .wait) || !s.stale) &&
+  (!(s.upc == .cSess || s.upc == .c3) || !s.stale)
 
 /-! ### progress measures -/
 
@@ -331,7 +355,7 @@ def happy (s : St) : St :=
   | .top a => { s with mpc := .act a }
   | .act .createSecureChannel => { s with mpc := .dialLoop, last := .reconnecting }
   | .dialLoop => { s with mpc := .dialed }
-  | .dialed => { s with mpc := .top .restoreSession }
+  | .dialed => { s with mpc := .top .restoreSession, stale := false, faulted := false }
   | .dialWait => { s with mpc := .dialLoop }
   | .act .restoreSession => { s with mpc := .restore1, last := .reconnecting }
   | .restore1 => if s.sess then { s with mpc := .top .restoreSubscriptions } else { s with mpc := .top .recreateSession }
@@ -339,7 +363,7 @@ def happy (s : St) : St :=
   | .recreate1 => { s with mpc := .top .transferSubscriptions, sess := true }
   | .act .transferSubscriptions => { s with mpc := .top .restoreSubscriptions }
   | .act .restoreSubscriptions => { s with mpc := .done, last := .connected }
-  | .done => { s with mpc := .wait }
+  | .done => { s with mpc := .wait, stale := false, faulted := false }
   | _ => s
 
 def iter (f : St → St) : Nat → St → St
